@@ -20,7 +20,8 @@
    C07 (the live sets are sound) this is the property for the statements control_flow.py rewrites.
    for loops carry the extra test `not flag` that break / return lowering attaches to them (tested before every
    item is pulled, as ag__.for_stmt does).
-   Not modelled here: with statements, exceptions raised implicitly by user statements, composite
+   Native `with` statements run their body in place.
+   Not modelled here: context managers that swallow exceptions, exceptions raised implicitly by user statements, composite
    (attribute / subscript) stores, loop else clauses, nested function definitions. *)
 From Coq Require Import List Arith Bool.
 Import ListNotations.
